@@ -225,6 +225,22 @@ func (c *RefClient) NoteRequest(id uint64, method, params string, t, step int) {
 	c.ReqOrder = append(c.ReqOrder, id)
 }
 
+// isRef is how a client of this connection's protocol version reads a value:
+// below 1.2.1 there are no soft references or data values, so any object with
+// a rid is a resource reference (the gateway sends such clients soft
+// references as plain strings and data values as a placeholder).
+func (c *RefClient) isRef(v interface{}) (string, bool) {
+	if c.Ver < verSoftData {
+		if m, ok := v.(map[string]interface{}); ok {
+			if rid, ok := m["rid"].(string); ok {
+				return rid, true
+			}
+		}
+		return "", false
+	}
+	return isRef(v)
+}
+
 func isRef(v interface{}) (string, bool) {
 	m, ok := v.(map[string]interface{})
 	if !ok {
@@ -347,7 +363,7 @@ func (c *RefClient) gc(t int) {
 		stack = stack[:len(stack)-1]
 		r := c.Held[rid]
 		visit := func(v interface{}) {
-			if ref, ok := isRef(v); ok {
+			if ref, ok := c.isRef(v); ok {
 				if _, held := c.Held[ref]; held && !reach[ref] {
 					reach[ref] = true
 					stack = append(stack, ref)
@@ -370,12 +386,12 @@ func (c *RefClient) gc(t int) {
 			var refs []string
 			if r := c.Held[rid]; r != nil {
 				for _, v := range r.Model {
-					if ref, ok := isRef(v); ok {
+					if ref, ok := c.isRef(v); ok {
 						refs = append(refs, ref)
 					}
 				}
 				for _, v := range r.Coll {
-					if ref, ok := isRef(v); ok {
+					if ref, ok := c.isRef(v); ok {
 						refs = append(refs, ref)
 					}
 				}
@@ -402,7 +418,7 @@ func (c *RefClient) checkDangling(t int) {
 	for _, rid := range rids {
 		r := c.Held[rid]
 		chk := func(v interface{}) {
-			if ref, ok := isRef(v); ok {
+			if ref, ok := c.isRef(v); ok {
 				if _, held := c.Held[ref]; !held {
 					c.viol("C02", "dangling_reference", t, "after frame at t=%d resource %s references %s for which the client has neither data nor error", t, rid, ref)
 					c.Viol[len(c.Viol)-1].Other = ref
